@@ -223,3 +223,13 @@ Theorem C03_inner_product_keeps_secrecy : forall ρ s, Inv ρ s -> InvE ρ s -> 
     /\ tv_ok (TLeaf (any_taint (tvs tl) || any_taint (tvs tr))) T = true.
 Proof. exact (inner_product_keeps_secrecy GenScalar.G). Qed.
 Print Assumptions C03_inner_product_keeps_secrecy.
+
+(* Array.new: every element is recorded with the one type t0; the taint the specification computes for the new array —
+   the join of the element taints over the untainted value of that type — is within the recorded array type *)
+Theorem C03_array_new_keeps_secrecy : forall ρ s, Inv ρ s -> InvE ρ s -> forall es w s1,
+  eval_rhs GenScalar.G ρ (RArrayNew es) s = Ok (w, s1) ->
+  exists ids id t0 T,
+    recorded_as s1 id T (ANew "ArrayNew" ids) /\ Forall (fun i => ty_at s1 i t0) ids /\ ids <> []
+    /\ tv_ok (TArrT (fold_right (fun v acc => tv_join v acc) (clean t0) (repeat (tvs t0) (List.length ids)))) T = true.
+Proof. exact (array_new_keeps_secrecy GenScalar.G). Qed.
+Print Assumptions C03_array_new_keeps_secrecy.
